@@ -275,7 +275,7 @@ def new_result():
 def shards(tier, seed, scale=1.0):
     out = []
     files = corpus_files()
-    kc = {"quick": 6, "thorough": 40}[tier]
+    kc = {"quick": 10, "thorough": 40}[tier]
     nchunks = 8
     for c in range(nchunks):
         out.append({"name": "corpus-%d" % c, "type": "corpus", "files": files[c::nchunks], "k": kc,
